@@ -64,6 +64,12 @@ TStep ==
      \/ /\ e.ev = "mkstemp" /\ Mkstemp(e.p)
         /\ Finish(IF ~e.same_dir \/ e.is_modpath THEN "temp-file-not-in-the-module-directory-or-is-the-module-path"
                   ELSE IF ~e.private THEN "temp-file-name-shared-between-processes" ELSE "", e)
+     \* a module_writer is configured but the code writes the file itself: the protocol goes on (and is checked), the
+     \* verdict comes from WriterExactlyWhenDue when the construction completes
+     \/ /\ e.ev = "mkstemp" /\ pc[e.p] = "CallWriter"
+        /\ tmp' = [tmp EXCEPT ![e.p] = [st |-> "open", from |-> loc[e.p].data, bytes |-> 0]]
+        /\ Go(e.p, "Write", loc[e.p], [ev |-> "mkstemp"]) /\ UNCHANGED <<now, src, mod, dir>>
+        /\ Finish(IF ~e.same_dir \/ e.is_modpath THEN "temp-file-not-in-the-module-directory-or-is-the-module-path" ELSE "", e)
      \/ /\ e.ev = "write" /\ Write(e.p) /\ Finish(C(e.full, "short-write"), e)
      \/ /\ e.ev = "close" /\ Close(e.p) /\ Finish("", e)
      \* the rename: from the Move label, or earlier when os.close / os.write were not separate observed steps
